@@ -119,9 +119,23 @@ func streamInsulate(c *ctx) {
 			run  func(u uhppote.IUHPPOTE) (func() string, error)
 			op   opDef
 		}
+		// what the application may do with a result it was handed: edit it (set by the probe that ran last)
+		edit := func() {}
 		probes := []probe{
 			{"GetDevice", func(u uhppote.IUHPPOTE) (func() string, error) {
 				x, err := u.GetDevice(dev)
+				edit = func() {
+					if x != nil {
+						for _, ip := range []net.IP{x.IpAddress, x.SubnetMask, x.Gateway} {
+							for i := range ip {
+								ip[i] ^= 0x5a
+							}
+						}
+						for i := range x.MacAddress {
+							x.MacAddress[i] ^= 0x5a
+						}
+					}
+				}
 				return func() string {
 					return fmt.Sprintf("%v %v %v %x %v", x.IpAddress, x.SubnetMask, x.Gateway, []byte(x.MacAddress), x.Date)
 				}, err
@@ -132,14 +146,40 @@ func streamInsulate(c *ctx) {
 			}, opDefs[2]},
 			{"GetCardByIndex", func(u uhppote.IUHPPOTE) (func() string, error) {
 				x, err := u.GetCardByIndex(dev, 1)
+				edit = func() {
+					if x != nil && x.Doors != nil {
+						x.Doors[1], x.Doors[2], x.Doors[3], x.Doors[4] = 29, 1, 0, 254
+					}
+				}
 				return func() string { return fmt.Sprintf("%v", x) }, err
 			}, opDefs[10]},
 			{"GetStatus", func(u uhppote.IUHPPOTE) (func() string, error) {
 				x, err := u.GetStatus(dev)
+				edit = func() {
+					if x != nil {
+						for k := range x.DoorState {
+							x.DoorState[k] = !x.DoorState[k]
+						}
+						for k := range x.DoorButton {
+							x.DoorButton[k] = !x.DoorButton[k]
+						}
+						x.SequenceId ^= 0xffff
+					}
+				}
 				return func() string { return fmt.Sprintf("%v", x) }, err
 			}, opDefs[8]},
 			{"GetTimeProfile", func(u uhppote.IUHPPOTE) (func() string, error) {
 				x, err := u.GetTimeProfile(dev, 29)
+				edit = func() {
+					if x != nil {
+						for k := range x.Weekdays {
+							x.Weekdays[k] = !x.Weekdays[k]
+						}
+						for k := range x.Segments {
+							x.Segments[k] = types.Segment{Start: types.NewHHmm(1, 2), End: types.NewHHmm(3, 4)}
+						}
+					}
+				}
 				return func() string { return fmt.Sprintf("%v", x) }, err
 			}, opDefs[15]},
 		}
@@ -149,6 +189,9 @@ func streamInsulate(c *ctx) {
 		if p.name == "GetTimeProfile" {
 			reply[8] = 29
 		}
+		if p.name == "GetCardByIndex" && r.Chance(1, 2) { // a card without access to any door (all four permissions 0)
+			copy(reply[20:24], []byte{0, 0, 0, 0})
+		}
 		d2.Datagrams = [][]byte{reply}
 		res := guard(func() string {
 			show, err := p.run(u2)
@@ -156,6 +199,7 @@ func streamInsulate(c *ctx) {
 				return "err"
 			}
 			b := show()
+			editFirst := edit // (the probe sets `edit` again at every run)
 			d2.ScribbleDelivered()
 			if show() != b {
 				return "changed: " + b + " -> " + show()
@@ -170,6 +214,15 @@ func streamInsulate(c *ctx) {
 			p.run(u2)
 			if show() != b {
 				return "changed: " + b + " -> " + show() + " (after the next call)"
+			}
+			// ... and the other way round: the application edits the result it was handed (its maps, its address bytes),
+			// then the same reply arrives again - it reads as it did the first time
+			editFirst()
+			d2.Datagrams = [][]byte{append([]byte{}, reply...)}
+			if show3, err := p.run(u2); err != nil {
+				return "changed: the same reply is now refused"
+			} else if show3() != b {
+				return "changed: " + b + " -> " + show3() + " (the same reply, after the caller edited the earlier result)"
 			}
 			return "unchanged"
 		})
